@@ -190,9 +190,14 @@ pub fn guard<T>(what: &str, f: impl FnOnce() -> T) -> Result<T, Failure> {
         Ok(v) => Ok(v),
         Err(_) => {
             let loc = PANIC_LOC.with(|p| p.borrow_mut().take()).unwrap_or_else(|| "?".into());
+            // a panic outside the library under test is a harness bug, never a violation
+            let in_repo = loc.starts_with("/repo/") || loc.contains("/repo/src/");
             // strip the repo prefix for stability
             let short = loc.replace("/repo/", "");
             let site = short.split(' ').next().unwrap_or("?").to_string();
+            if !in_repo {
+                return Err(Failure { sig: "harness-panic".into(), msg: format!("panic in harness code ({}): {}", what, short) });
+            }
             Err(Failure { sig: format!("panic@{}", site), msg: format!("panic in {}: {}", what, short) })
         }
     }
@@ -431,7 +436,7 @@ pub fn run_check(chk: &dyn Check, cfg: &RunCfg) -> i32 {
     }
 
     if let Some(fi) = first_fail {
-        if fi.failure.sig == "abort" {
+        if fi.failure.sig == "abort" || fi.failure.sig == "harness-panic" {
             eprintln!("inconclusive: {}", fi.failure.msg);
             write_evidence(chk, cfg, &total, t0, 0, extra);
             return 2;
